@@ -297,6 +297,9 @@ def lib_np_random_seed(eng, st, args, kw, node):
     """np.random.seed(s): None, or an integer in [0, 2**32); a float raises TypeError, an out-of-range int ValueError"""
     s = args[0]
     eng.ctx.tags.add("AX_numpy_legacy_rng_seeded_by_seed")
+    # ghost: the argument of the last seeding call, and whether a random draw preceded it on this path
+    st.ghost["seed_arg"] = s
+    st.ghost["seeded_before_draw"] = not st.ghost.get("rng_used", False)
     if s.t[0] == "none":
         return NONE
     isnone = s.none if s.none is not None else z3.BoolVal(False)
